@@ -1,6 +1,7 @@
 package props
 
 import (
+	"runtime"
 	"encoding/json"
 	"fmt"
 	"github.com/evolbioinfo/goalign/io/countprofile"
@@ -37,6 +38,8 @@ type c14Case struct {
 	IgG     bool        `json:"ignoreGaps,omitempty"`
 	IgN     bool        `json:"ignoreNs,omitempty"`
 	Site    int         `json:"site,omitempty"`
+	// Procs (long-columnwise): GOMAXPROCS during the case (0 = unchanged)
+	Procs int `json:"gomaxprocs,omitempty"`
 	RmGaps  bool        `json:"removeGaps,omitempty"`
 	Norm    int         `json:"norm,omitempty"`
 	Log     bool        `json:"log,omitempty"`
@@ -1684,7 +1687,7 @@ func c14Run(c *mc.Ctx, cs c14Case) {
 		return
 	}
 	if cs.Op == "long-columnwise" {
-		c14LongColumnwise(c, cs.Site)
+		c14LongColumnwise(c, cs.Site, cs.Procs)
 		return
 	}
 	if len(cs.Seqs) == 0 {
@@ -1963,8 +1966,14 @@ func c14Tasks(tier string) []mc.Task {
 		for l := 5; l <= 40; l++ {
 			lens = append(lens, l)
 		}
-		for _, L := range append(lens, 63, 64, 65, 255, 256, 257) {
-			c14LongColumnwise(c, L)
+		for _, L := range append(lens, 63, 64, 65, 255, 256, 257, 1023, 1024, 1027, 4099) {
+			c14LongColumnwise(c, L, 0)
+			if L >= 255 {
+				// statistics whose sites could be shared between processors: the same under 2, 3, 5, 8
+				for _, procs := range []int{2, 3, 5, 8} {
+					c14LongColumnwise(c, L, procs)
+				}
+			}
 			if c.Expired() {
 				return
 			}
@@ -2012,11 +2021,14 @@ func c14Tasks(tier string) []mc.Task {
 // (MaxCharStats under the four option pairs, CharStatsSite, Entropy with and without gaps, SiteConservation,
 // the count profile; NbVariableSites and InformativeSites as sums / lists over the columns).  The one-column
 // values are what the enumeration judges; rows of every length 5..40, 63..65, 255..257.
-func c14LongColumnwise(c *mc.Ctx, L int) {
+func c14LongColumnwise(c *mc.Ctx, L int, procs int) {
 	c.Eval()
-	cs := c14Case{Op: "long-columnwise", Alpha: align.NUCLEOTIDS, Site: L}
+	if procs > 0 {
+		defer runtime.GOMAXPROCS(runtime.GOMAXPROCS(procs))
+	}
+	cs := c14Case{Op: "long-columnwise", Alpha: align.NUCLEOTIDS, Site: L, Procs: procs}
 	viol := func(clause, desc string) {
-		c.Violation("C14/long-alignment/"+clause, fmt.Sprintf("%s (5 rows, %d sites)", desc, L), cs)
+		c.Violation("C14/long-alignment/"+clause, fmt.Sprintf("%s (5 rows, %d sites, GOMAXPROCS %d)", desc, L, procs), cs)
 	}
 	seqs := make([]string, 5)
 	for i := range seqs {
